@@ -4,6 +4,7 @@ import Gtree.Lemmas.SourceRefines
 import Gtree.Lemmas.Validate
 import Gtree.Lemmas.MkdirCounts
 import Gtree.Lemmas.MkInterleave
+import Gtree.Lemmas.TreeFacts
 /-
   C09 — dry run touches nothing and predicts the real run (model of the repaired code).
 -/
@@ -168,4 +169,18 @@ theorem C09_dry_run_printer_is_the_source (cs : SrcH.colorizeSpreaderSimple) (h 
   rw [SrcH.summary_eq h _ (countDirs cs.fileConsiderer.extensions (growRoot f t))
     (countFiles cs.fileConsiderer.extensions (growRoot f t)) (by simp [SrcH.bump, h0']) (by simp [SrcH.bump, h0])]
   simp [dryRunReport, lf]
+end Gtree
+
+namespace Gtree
+
+/-- **C09 (facts: which printer a dry run uses).**  The spreader of the simple tree comes from the factory that picks
+    `newColorizeSpreaderSimple` (given the configured extensions) when `cfg.dryrun`, which returns the
+    `colorizeSpreaderSimple` the dry-run theorems are about; and Mkdir's dry run prints with that spreader after
+    validating and growing. -/
+theorem C09_facts_dry_run_uses_the_colorize_printer :
+    lookupL "spreader" Facts.treeSimpleFields = ["spreaderFactory", "cfg.encode", "cfg.dryrun", "cfg.fileExtensions"] ∧
+    lookupL "spreaderFactory" Facts.factoryCtors = ["newColorizeSpreaderSimple", "newSpreaderSimple"] ∧
+    lookupL "newColorizeSpreaderSimple" Facts.ctorReturns = ["colorizeSpreaderSimple", "defaultSpreaderSimple"] ∧
+    (lookupL "mkdir" Facts.treeSimpleCalls).take 3 = ["grower.enableValidation", "grower.grow", "spreader.spread"] := by decide
+
 end Gtree
